@@ -1464,7 +1464,12 @@ CMP_CODE = {"<": 0, "<=": 1, ">": 2, ">=": 3, "!=": 4}
 def loop_end(lp):
     """value of the induction variable after a counted loop without early exit, as an opaque term that keeps the
     loop's descriptor: ("call", "$loop_end", (lo, hi, step, cmp code, line))"""
-    return ("call", "$loop_end", (lp["lo"], lp["hi"], lp["step"], I(CMP_CODE[lp["cmp"]]), I(lp.get("l", 0))))
+    # shift invariance: end(lo, hi, s) = lo + end(0, hi - lo, s); the second summand does not mention lo, so a variable that
+    # is the counter of an inner loop stays a closed form of the outer loop (p = p_entry + trip count)
+    lo, hi = lp["lo"], lp["hi"]
+    if lo != ZERO and lp["cmp"] in ("<", "<=", ">", ">="):
+        return sym.add(lo, ("call", "$loop_end", (ZERO, sym.sub(hi, lo), lp["step"], I(CMP_CODE[lp["cmp"]]), I(lp.get("l", 0)))))
+    return ("call", "$loop_end", (lo, hi, lp["step"], I(CMP_CODE[lp["cmp"]]), I(lp.get("l", 0))))
 
 
 def paths(effects, limit=4096):
